@@ -65,9 +65,9 @@ deriving Repr, DecidableEq
     Fixed since the first run of this check (regression witnesses are kept about `Defects.beforeFixes`):
     `roomlessReplaceUnchecked` (/repo 37a7f03), `jsonAbsentUnchecked` (/repo e73c9e7), `authEntityUnchecked` (/repo 4dd7eb7). -/
 def Defects.asImplemented : Defects :=
-  { -- open: needs a new query per incoming reference (findings/C02-open-findings.md)
+  { -- findings/C02-edge-source.patch
     edgeSourceUnchecked := true,
-    -- open: needs the author of the stored reference, same new query
+    -- open (findings/C02-open-findings.md): needs the author of the stored reference and an order inside the batch
     edgeReplaceUnchecked := true,
     -- findings/C02-replace-other-entity.patch
     entityChangeUnchecked := true,
@@ -77,7 +77,7 @@ def Defects.asImplemented : Defects :=
     delRoomUnchecked := true,
     -- findings/C02-deletion-entity-mismatch.patch
     delEntityUnchecked := true,
-    -- open: a repair would refuse honest records after a room move (findings/C02-open-findings.md)
+    -- open (findings/C02-open-findings.md): a repair would refuse honest records after a room move
     edgeDelSourceUnchecked := true,
     -- fixed: /repo e73c9e7
     jsonAbsentUnchecked := false,
@@ -85,7 +85,7 @@ def Defects.asImplemented : Defects :=
     authEntityUnchecked := false }
 
 /-- /repo at 846341e, before the second series of repairs (replace-other-entity, deletion-of-other-room,
-    deletion-entity-mismatch): the value the witnesses `C02_breaks_*` of the seven shapes are stated about, so that
+    deletion-entity-mismatch, edge-source): the value the witnesses `C02_breaks_*` of the seven shapes are stated about, so that
     they stay true whatever `asImplemented` becomes -/
 def Defects.beforeFix : Defects :=
   { edgeSourceUnchecked := true, edgeReplaceUnchecked := true, entityChangeUnchecked := true,
